@@ -48,4 +48,19 @@ def address_resolve (self_package : List Str) (selector : Str) : Str :=
   else
   (selector)
 
+-- gapic/generator/formatter.py — fix_whitespace
+def fix_whitespace (code : Str) : Str :=
+  let code : Str := (reSub (.seq (.seq (.chr ' ') (.star (.chr ' ') true)) (.chr (Char.ofNat 10))) [.lit [(Char.ofNat 10)]] code)
+  let code : Str := (reSub (.seq (.seq (.cls false [.space]) (.star (.cls false [.space]) true)) (.seq (.chr (Char.ofNat 10)) (.seq (.star (.cls false [.space]) true) (.seq (.chr (Char.ofNat 10)) (.seq (.star (.cls false [.space]) true) (.seq (.chr (Char.ofNat 10)) (.group 1 (.alt (.seq (.chr 'c') (.seq (.chr 'l') (.seq (.chr 'a') (.seq (.chr 's') (.chr 's'))))) (.alt (.seq (.chr 'd') (.seq (.chr 'e') (.chr 'f'))) (.alt (.chr '@') (.alt (.chr '#') (.chr '_')))))))))))) [.lit [(Char.ofNat 10), (Char.ofNat 10), (Char.ofNat 10)], .grp 1] code)
+  let code : Str := (reSub (.seq (.seq (.cls false [.space]) (.star (.cls false [.space]) true)) (.seq (.chr (Char.ofNat 10)) (.seq (.star (.cls false [.space]) true) (.seq (.chr (Char.ofNat 10)) (.seq (.group 1 (.seq (.group 2 (.seq (.chr ' ') (.seq (.chr ' ') (.seq (.chr ' ') (.chr ' '))))) (.star (.group 2 (.seq (.chr ' ') (.seq (.chr ' ') (.seq (.chr ' ') (.chr ' '))))) true))) (.group 3 (.cls false [.word, .ch '_', .ch '@', .ch '#']))))))) [.lit [(Char.ofNat 10), (Char.ofNat 10)], .grp 1, .grp 3] code)
+  ((rstrip code) ++ ([(Char.ofNat 10)] : Str))
+
+-- gapic/utils/code.py — make_private
+def make_private (object_name : Str) : Str :=
+  (if (startswith object_name (['_'] : Str)) then object_name else ((['_'] : Str) ++ object_name))
+
+-- gapic/samplegen_utils/utils.py — coerce_response_name
+def coerce_response_name (s : Str) : Str :=
+  (replace s ['$', 'r', 'e', 's', 'p'] (['r', 'e', 's', 'p', 'o', 'n', 's', 'e'] : Str))
+
 end GapicModel.Generated.Funcs
